@@ -61,6 +61,20 @@ def cmdStartup (j : Json) : Except String Json := do
     Json.mkObj [("id", p.id), ("fate", toJson f),
       ("closedInner", toJson (if f == .closed then (Startup.close p).1.inner else p.inner))])
 
+def cmdSearch (j : Json) : Except String Json := do
+  let store : List Search.Row ← j.getObjValAs? (List Search.Row) "store"
+  match j.getObjValAs? String "op" with
+  | .ok "search" =>
+    let f : Search.Filters ← j.getObjValAs? Search.Filters "filters"
+    return toJson ((Search.search f store).map (·.id))
+  | .ok "list" =>
+    let limit : Int ← j.getObjValAs? Int "limit"
+    return toJson ((Search.list limit store).map (·.id))
+  | .ok "exists" =>
+    let id : Nat ← j.getObjValAs? Nat "id"
+    return toJson (Search.exists_ id store)
+  | _ => throw "search: bad op"
+
 def dispatch (j : Json) : Except String Json := do
   let cmd ← j.getObjValAs? String "cmd"
   match cmd with
@@ -70,6 +84,7 @@ def dispatch (j : Json) : Except String Json := do
   | "validate" => cmdValidate j
   | "engine" => cmdEngine j
   | "startup" => cmdStartup j
+  | "search" => cmdSearch j
   | "ping" => return "pong"
   | _ => throw s!"unknown cmd {cmd}"
 
